@@ -1,10 +1,46 @@
 (* C07 — numeric literals mean exactly what is written.  Theorems only. *)
+From Coq Require Import QArith.
 From Coq Require Import List NArith ZArith Bool.
-From Okv Require Import Model.Lit Model.LitSpec.
+From Okv Require Import Model.Lit Model.LitSpec Proofs.LitProofs Proofs.LitShow Proofs.LitExamples.
 Import ListNotations.
 Open Scope N_scope.
 
-(* placeholder until Proofs/LitProofs.v lands: the empty literal is rejected *)
-Theorem C07_empty_rejected : scan [] = SErr NoDigit.
-Proof. reflexivity. Qed.
-Print Assumptions C07_empty_rejected.
+(* every well-formed literal is accepted with exactly the spec's meaning, unless it does not
+   fit a Decimal, in which case it is rejected as InvalidDecimal *)
+Theorem C07_wf_accepted : forall l t,
+  spec_scan l = Some t ->
+  scan l = if fits t then SOk (pdec_of t) else SErr InvalidDecimal.
+Proof. exact wf_accepted. Qed.
+Print Assumptions C07_wf_accepted.
+
+(* only well-formed, representable literals are accepted *)
+Theorem C07_accept_only_wf : forall l d,
+  scan l = SOk d -> exists t, spec_scan l = Some t /\ fits t = true /\ d = pdec_of t.
+Proof. exact accept_only_wf. Qed.
+Print Assumptions C07_accept_only_wf.
+
+Theorem C07_too_big_rejected : forall l t,
+  spec_scan l = Some t -> fits t = false -> scan l = SErr InvalidDecimal.
+Proof. exact too_big_rejected. Qed.
+Print Assumptions C07_too_big_rejected.
+
+(* the accepted value is exactly the written one, with the written number of places *)
+Theorem C07_value_exact : forall l d,
+  scan l = SOk d ->
+  exists t, spec_scan l = Some t /\ (pdec_value d == lit_value t)%Q /\ scale d = lit_places t.
+Proof. exact value_exact. Qed.
+Print Assumptions C07_value_exact.
+
+(* what the printer writes for a Decimal scans back to the same number, places and sign, and to
+   the same style when the integer part has four or more digits (wf_pdec and big are defined in
+   Proofs/LitShow.v) *)
+Theorem C07_show_scan : forall d, wf_pdec d ->
+  exists d', scan (show d) = SOk d' /\ mant d' = mant d /\ scale d' = scale d /\
+             neg d' = neg d /\ (big d = true -> pfmt d' = pfmt d).
+Proof. exact show_scan. Qed.
+Print Assumptions C07_show_scan.
+
+(* the round trip applies to everything the scanner returns *)
+Theorem C07_scanned_wf : forall l d, scan l = SOk d -> wf_pdec d.
+Proof. exact scan_wf. Qed.
+Print Assumptions C07_scanned_wf.
